@@ -416,8 +416,15 @@ def reset_histories(mon, lab, rng, n):
             st.user_skip = set()
             st.config.stop = stop2
             second["verdict"] = st.runner.run()
-        obs = lab.run(program, args=case["args"], second_run=second_run)
-        mon.case(("reset", RB.strip_case(case), sorted(table2.items())[:6], stop2), True)
+        fault = None
+        if i % 2 == 0:
+            # run 1 additionally with a raising hook (often a step hook): its traces are gone after the reset as well
+            obs0 = lab.run(program, args=case["args"])
+            ks = [k for k, h in enumerate(obs0.hooks) if h[0] in ("before_step", "after_step")] or list(range(len(obs0.hooks)))
+            if ks:
+                fault = {"k": rng.choice(ks), "exc": "Exception"}
+        obs = lab.run(program, args=case["args"], second_run=second_run, hook_fault=fault)
+        mon.case(("reset", RB.strip_case(case), sorted(table2.items())[:6], stop2, repr(fault)), True)
         W = lambda **kw: RB.witness(case, second_table={k: v for k, v in list(table2.items())[:8]}, **kw)
         if obs.escaped is not None:
             mon.check("history.no_exception_escapes", False, lambda: W(escaped=repr(obs.escaped)))
